@@ -48,10 +48,15 @@ def generate(rng, tier):
                 d["style"] = "jitter"
                 d["X"] = None
                 j = rng.randrange(len(d["x"]))
-                if rng.random() < 0.5:
+                u_ = rng.random()
+                if u_ < 0.3:
                     d["Qmax"], d["Qmin"] = round(d["x"][j], 2), None
-                else:
+                elif u_ < 0.6:
                     d["Qmin"], d["Qmax"] = round(d["x"][j], 2), None
+                elif u_ < 0.8:       # an edge that is not a multiple of 0.01 and excludes the point next to it (1.904 keeps 1.90 out)
+                    d["Qmin"], d["Qmax"] = round(d["x"][j], 2) + 0.004, None
+                else:
+                    d["Qmax"], d["Qmin"] = round(d["x"][j], 2) - 0.004, None
                 SL.finish_dataset(d, cfg["mat"])
         if i % 7 == 3 and len(ds) >= 1:
             # the same bank contributed twice (bit-identical points) next to a different one: the mean counts every contribution
@@ -75,6 +80,8 @@ def run_impl(pystog, case):
     pre = snaps[-1]
     if len(pre["sq"][0]) == 0:
         return {"empty": True, "pre": pre}
+    if case.get("late_window"):      # Qmin / Qmax set on the instance after the datasets were added: the merge acts on the stored points
+        stog.qmin, stog.qmax = case["late_window"]
     stog.merge_data()
     q, sq, fq = merged(stog)
     post = SL.snap(stog)
